@@ -51,9 +51,11 @@ FILE_NAMES = ["m.mdl", 'a"b.mdl', "c{d|e}.mdl", "x<y>.mdl", "back\\slash.mdl", "
 
 
 class ModelGen:
-    def __init__(self, r, dup=0.0):
+    def __init__(self, r, dup=0.0, cross=False):
         self.r = r
         self.values = []
+        self.cross = cross      # references may name things of the other files of the case
+        self.allnames = []
         self.dup = dup      # chance to reuse an earlier value: distinct objects with equal attribute values
 
     def val(self):
@@ -74,6 +76,9 @@ class ModelGen:
         for i in range(n):
             nm = self.fresh()        # reference targets: the placeholder names must stay unique
             names.append(nm)
+            self.allnames.append(nm)
+            if self.cross:
+                names = self.allnames
             parts = ["thing", nm]
             if r.chance(0.4):
                 parts += ["title", self.val()]
@@ -150,8 +155,9 @@ SHAPES = [("value", 4), ("const", 2), ("unhashable", 2), ("falsy_len", 1), ("fal
 
 def gen_model_case(r, i):
     which = r.weighted([(1, 5), (2, 2), (3, 3)])
-    mode = r.weighted([("single", 5), ("repo", 3), ("generator", 2), ("globalrepo", 1)])
-    nfiles = r.range(1, 2) if mode in ("repo", "globalrepo") else 1
+    mode = r.weighted([("single", 5), ("repo", 3), ("generator", 2), ("globalrepo", 2)])
+    nfiles = r.range(1, 3) if mode in ("repo", "globalrepo") else 1
+    cross = mode == "globalrepo" and which == 1
     classes = []
     if r.chance(0.4):
         # user classes whose __eq__/__hash__/__bool__/__str__ differ from object's: the export must go by identity
@@ -159,7 +165,7 @@ def gen_model_case(r, i):
         for rule in r.sample(rules, r.range(1, len(rules))):
             shape = r.weighted(SHAPES)      # the root rule too: a falsy root model must still be exported
             classes.append({"rule": rule, "shape": shape})
-    g = ModelGen(r, dup=0.5 if classes else 0.0)
+    g = ModelGen(r, dup=0.5 if classes else 0.0, cross=cross)
     files = []
     names = r.shuffle(FILE_NAMES)
     for k in range(nfiles):
@@ -168,6 +174,8 @@ def gen_model_case(r, i):
     case = {"kind": "model", "grammar": {1: G1, 2: G2, 3: G3}[which], "files": files, "values": g.values, "mode": mode}
     if classes:
         case["classes"] = classes
+    if cross:
+        case["cross"] = True
     return case
 
 
@@ -212,7 +220,7 @@ def gen_metamodel_case(r, i):
                 if tk == "bool" or op == "?=":
                     parts.append("%s?=%s" % (an, r.choice(LITS)))
                 elif tk == "base" or not others:
-                    t = r.choice(BASE)
+                    t = r.choice(BASE + ["OBJECT"])
                     parts.append("%s%s%s%s" % (an, op, t, r.choice(["", "", "?"]) if op == "=" else ""))
                 elif tk == "rule":
                     parts.append("%s%s%s" % (an, op, r.choice(others)))
@@ -310,6 +318,9 @@ def oracle_metamodel_dot(case, o):
     missing = [want[k]["name"] for k in want if k not in seen]
     if missing:
         return "no node for class(es) %s" % missing[:3]
+    for ends, attrs in g.edges:
+        if any(e[1] not in seen for e in ends):
+            return "edge %s joins a class without a node statement" % ([e[1] for e in ends],)
     if any(seen[k] != 1 for k in want):
         return "a class has several node statements"
     return None
@@ -318,8 +329,11 @@ def oracle_metamodel_dot(case, o):
 def oracle_plantuml(case, o):
     classes = D.read_plantuml(o["text"])
     want = [c["fqn"] for c in o["classes"] if c["typ"] in ("common", "abstract") and not c["builtin"]]
-    if sorted(classes) != sorted(want):
-        return "declared classes %s differ from the metamodel's %s" % (sorted(classes)[:4], sorted(want)[:4])
+    # a built-in abstract class (OBJECT) is declared where an attribute has that type
+    extra_ok = {c["fqn"] for c in o["classes"] if c["builtin"] and c["typ"] != "match"
+                and any(a["cls"] == c["name"] for k in o["classes"] if not k["builtin"] for a in k["attrs"])}
+    if sorted(x for x in classes if x not in extra_ok) != sorted(want):
+        return "declared classes %s differ from the metamodel's %s" % (sorted(classes), sorted(want))
     return None
 
 
@@ -369,7 +383,41 @@ def coq_store(objects):
     return core.coq_list(objs)
 
 
-WALK_IMPORTS = """From TxV Require Import Core.Base Core.Show Model.ExportDefs Gen.SrcExport Model.Export Model.ExportWalk.
+def walk_expr(o):
+    """the modelled text of model_export: single model, or the repository path with one subgraph block per model"""
+    if o.get("repo_path"):
+        roots = core.coq_list(["(%d%%nat, %s)" % (k, cs(fn)) for k, fn in zip(o["roots"], o["root_files"])])
+        return "show_str (export_repo_doc %s export_header %s)" % (coq_store(o["objects"]), roots)
+    return "show_str (export_doc %s export_header %d%%nat)" % (coq_store(o["objects"]), o["roots"][0])
+
+
+def coq_classes(classes):
+    kinds = {"common": "KCommon", "abstract": "KAbstract", "match": "KMatch"}
+    mults = {"1": "M1", "0..1": "M01", "0..*": "M0s", "1..*": "M1s"}
+    out = []
+    for c in classes:
+        attrs = ["(mkMAttr %s %d%%nat %s %s %s)" % (cs(a["name"]), a["clsid"], mults[a["mult"]], core.coq_bool(a["cont"]), core.coq_bool(a["ref"])) for a in c["attrs"]]
+        out.append("(mkMCls %s %s %s %s %s)" % (cs(c["name"]), cs(c["fqn"]), kinds[c["typ"]], core.coq_list(attrs), core.coq_list(["%d%%nat" % j for j in c["inh_by"]])))
+    return core.coq_list(out)
+
+
+def coq_rows(rows):
+    return core.coq_list(["(%s, %s)" % (cs(n), cs(t)) for n, t in rows])
+
+
+def meta_expr(c, o):
+    cl = coq_classes(o["classes"])
+    if c["mode"] in ("dot", "gen_dot"):
+        doc = "mm_dot_doc %s %s" % (cl, coq_rows(o["rows"]))
+        rend = "dot_renderer"
+    else:
+        lt = "(Some %s)" % cs(c["linetype"]) if c.get("linetype") else "None"
+        doc = "mm_pu_doc %s %s %s" % (cl, lt, coq_rows(o["rows"]))
+        rend = "pu_renderer"
+    return "String.append (show_bool (wf_mm %s)) (show_str (%s))" % (cl, doc)
+
+
+WALK_IMPORTS = """From TxV Require Import Core.Base Core.Show Model.ExportDefs Gen.SrcExport Model.Export Model.ExportWalk Model.ExportMeta.
 Open Scope string_scope.
 (* inverse of show_str: printable characters stand for themselves, backslash <decimal> ; for the others *)
 Fixpoint dec_go (s : string) (acc : option N) : list N :=
@@ -437,14 +485,17 @@ def run(chk):
     except Exception as ex:     # the translator failed (already recorded by chk.prove): no template language to match against
         docs = None
         disagreements.append({"case": "template language", "model": "translator failed: %s" % ex})
-    walk = []
+    walk, metas = [], []
     for ch, os_ in zip(chunks, outs):
         for c, o in zip(ch, os_):
             kind = c["kind"] + ":" + c.get("mode", "")
-            if c["kind"] == "model" and c.get("mode") in ("single", "generator") and not o.get("exc") and not o.get("build_exc") and all(
+            if c["kind"] == "model" and not o.get("exc") and not o.get("build_exc") and all(
                     x["t"] != "obj" or x["id"] >= 0 for ob in o["objects"] for a in ob["attrs"] for x in (a["val"]["v"] if a["val"]["t"] == "list" else [a["val"]])):
                 if len(walk) < (400 if thorough else 60):
                     walk.append((c, o))
+            if c["kind"] == "metamodel" and not o.get("exc") and all(a["clsid"] >= 0 for k in o["classes"] for a in k["attrs"]) \
+                    and all(j >= 0 for k in o["classes"] for j in k["inh_by"]):
+                metas.append((c, o))
             chk.stat(kind)
             hostile = any(any(ch_ in v for ch_ in '"\\{}|<>\n') for v in c.get("values", [])) or c["kind"] == "metamodel"
             chk.count(json.dumps(c, sort_keys=True), nontrivial=hostile)
@@ -482,15 +533,16 @@ def run(chk):
     # ---- one Coq evaluation for both correspondences: dot_escape/dot_repr on the strings, and the traversal model on
     # the dumped object graphs (exact text of model_export for single models); interleaved so that shards are balanced
     exprs = [("s", k, "esc_case %s" % cs(s)) for k, s in enumerate(strings)]
-    exprs += [("w", k, "show_str (export_doc %s export_header %d%%nat)" % (coq_store(o["objects"]), o["roots"][0])) for k, (c, o) in enumerate(walk)]
+    exprs += [("w", k, walk_expr(o)) for k, (c, o) in enumerate(walk)]
+    exprs += [("m", k, meta_expr(c, o)) for k, (c, o) in enumerate(metas)]
     groups = [exprs[i::core.NPROC] for i in range(core.NPROC)]
     order = [e for g in groups for e in g]
     allvals, errs = core.coq_eval("C29", WALK_IMPORTS + "\n" + ESC_DEF, [e[2] for e in order])
     if errs:
         disagreements.append({"case": "coq evaluation", "model": errs[:2]})
-    vals, wvals = [None] * len(strings), [None] * len(walk)
+    vals, wvals, mvals = [None] * len(strings), [None] * len(walk), [None] * len(metas)
     for (tag, k, _), v in zip(order, allvals):
-        (vals if tag == "s" else wvals)[k] = v
+        {"s": vals, "w": wvals, "m": mvals}[tag][k] = v
     for s, mv in zip(strings, vals):
         e, rp = impl[s]
         special = any(c in s for c in '"\\{}|<>\n?')
@@ -505,7 +557,12 @@ def run(chk):
         chk.stat("traversal model compared")
         if mv is not None and mv != core.canon_text(o["text"]):
             disagreements.append({"case": c, "impl": {"text": o["text"]}, "model": mv})
-    chk.cov["disagreements_checked"] = len(strings) + len(walk)
+    for (c, o), mv in zip(metas, mvals):
+        chk.stat("metamodel traversal model compared")
+        if mv is not None and mv != "T" + core.canon_text(o["text"]):
+            what = "the dumped class list violates wf_mm (a link or specialisation touches a class without a node)" if mv.startswith("F") else None
+            disagreements.append({"case": c, "impl": {"text": o["text"]}, "model": mv, "what": what})
+    chk.cov["disagreements_checked"] = len(strings) + len(walk) + len(metas)
     chk.cov["rule"] = ("(1) every string over 8 characters (quote, backslash, braces, pipe, <, newline, a) up to length 3 (4 in thorough) plus random "
                        "hostile/long strings through dot_escape and dot_repr: implementation vs the Coq model, and each result re-read by an independent DOT "
                        "tokenizer and record-label parser; (2) generated models of three grammars (plain/list/mixed-list attributes, references, nesting, "
